@@ -17,9 +17,13 @@ class C14(object):
     id = 'C14'
     rule = ("joint distributions of 2-4 variables (alphabets 2-3, structural zeros, heterogeneous alphabets, named "
             "variables, sparse or dense, bases linear/2) x families of marginal constraints (overlapping, nested, "
-            "singleton, full, k-way) by index or name; maxent_dist: marginal residual, agreement with the model's IPF "
-            "fixed point (200 sweeps, Float), entropy >= H(d) and >= the IPF entropy; marginal_maxent_dists: chain length "
-            "n+1, uniform first, d last, non-increasing entropies. Non-trivial = >= 3 variables or overlapping constraints")
+            "singleton, full, k-way, families leaving variables unconstrained: singletons on a proper subset in any "
+            "order / with repeats, block, pairs, pair+singleton; sparse or dense result) by index or name; maxent_dist: "
+            "marginal residual, agreement with the model's IPF fixed point (200 sweeps, Float), entropy >= H(d), >= the "
+            "IPF entropy and >= the entropy of (own marginal on the constrained variables) x uniform on the "
+            "unconstrained ones, closed form for singleton families (product of listed marginals x uniform on the "
+            "rest); marginal_maxent_dists: chain length n+1, uniform first, d last, non-increasing entropies. "
+            "Non-trivial = >= 3 variables or overlapping constraints")
     tolerances = {'marginal residual': '2e-4 (SLSQP ftol 1e-7; construct_dist clips entries below 1e-6)',
                   'agreement with IPF': '2e-3 per probability', 'entropy dominance': '1e-4'}
     exhaustive = {}
@@ -75,6 +79,68 @@ class C14(object):
             if n == 1:
                 c['kind'], c['groups'], c['fam'] = 'chain', [[0]], 'singletons'
             yield c
+        # families that leave at least one variable of d unconstrained (drawn after the stream above, which is unchanged)
+        for _ in range(14 if tier == 'quick' else 200):
+            c = self.gen_free(rng, tier)
+            if c is not None:
+                yield c
+
+    @staticmethod
+    def exact_marginal(case, i):
+        m = {}
+        for o, p in zip(case['outs'], case['pmf']):
+            m[o[i]] = m.get(o[i], Fraction(0)) + Fraction(p)
+        return m
+
+    def gen_free(self, rng, tier):
+        """A constraint family whose union misses at least one variable, on a source in which a missed variable is
+        not uniform over its alphabet (so 'leave it uniform' and 'copy d's marginal' differ): singletons on a proper
+        subset (any order, with repeats), one block, pairs/chain among the constrained variables, pair + singleton."""
+        n = rng.choice([2, 3, 3, 3, 4])
+        for _ in range(40):
+            c = gen.rand_dist_case(rng, nmin=n, nmax=n, amax=2 if n == 4 else 3, bases=['linear', 2], max_support=10,
+                                   klasses=('str', 'tuple'), allow_space=False)
+            if c['names']:
+                c['names'] = list('XYZW')[:n]
+            gen.avoid_subnull(c)
+            if any(0 < Fraction(p) < Fraction(1, 1000) for p in c['pmf']):
+                pv, _ = gen.rand_prob_vector(rng, len(c['outs']), 'small')
+                c['pmf'] = [str(p) for p in pv]
+            nonuni = [i for i in range(n) if len(set(self.exact_marginal(c, i).values())) > 1]
+            cells = 1
+            for i in range(n):
+                cells *= len(set(o[i] for o in c['outs']))
+            if cells > 18 and (tier == 'quick' or rng.random() < 0.7):
+                continue        # 27-cell tables with free variables take the optimiser tens of seconds each
+            if nonuni:
+                break
+        else:
+            return None
+        free = set([rng.choice(nonuni)]) | set(i for i in range(n) if rng.random() < 0.3)
+        if len(free) == n:
+            free.discard(rng.choice([i for i in range(n) if i not in nonuni] or sorted(free)[:1]))
+        if not any(i in free for i in nonuni):
+            return None
+        cov = [i for i in range(n) if i not in free]
+        shape = rng.choice(['singletons', 'singletons', 'singletons', 'repeated', 'block', 'pairs', 'mixed'])
+        if shape == 'block' and len(cov) >= 2:
+            groups = [list(cov)]
+        elif shape == 'pairs' and len(cov) >= 2:
+            groups = [list(s) for s in itertools.combinations(cov, 2)]
+            if len(groups) == 3 and rng.random() < 0.5:
+                groups = groups[:1] + groups[2:]      # chain a-b, b-c
+        elif shape == 'mixed' and len(cov) >= 3:
+            groups = [cov[:2], cov[2:3]]
+        elif shape == 'repeated':
+            groups = [[i] for i in cov] + [[rng.choice(cov)]]
+        else:
+            shape = 'singletons'
+            groups = [[i] for i in cov]
+        rng.shuffle(groups)
+        c.update({'kind': 'maxent', 'groups': groups, 'fam': 'free', 'shape': shape,
+                  'byname': bool(c['names']) and rng.random() < 0.5, 'pre': rng.choice([None, None, 'zeros', 'full']),
+                  'k_max': None, 'dense_out': rng.random() < 0.3})
+        return c
 
     def shrink(self, case):
         return []
@@ -134,7 +200,17 @@ class C14(object):
                     sib.set_rv_names(names)
                 r.features.append('pre=%s' % case['pre'])
                 maxent_dist(sib, rvs, rv_mode='names' if case['byname'] else 'indices')
-        m = maxent_dist(d, rvs, rv_mode='names' if case['byname'] else 'indices')
+        covered = sorted(set(i for g in groups for i in g))
+        unc = [i for i in range(case['n']) if i not in covered]
+        allsingle = all(len(g) == 1 for g in groups)
+        r.features += ['unconstrained=%d' % len(unc), 'all-singletons=%s' % allsingle]
+        if case.get('shape'):
+            r.features.append('shape=%s' % case['shape'])
+        kw = {}
+        if case.get('dense_out'):
+            kw['sparse'] = False
+            r.features.append('dense_out')
+        m = maxent_dist(d, rvs, rv_mode='names' if case['byname'] else 'indices', **kw)
         if gen.obs_py(d, klass) != before:
             r.oracle_fail = 'maxent_dist changed its argument'
             return
@@ -157,6 +233,50 @@ class C14(object):
         if hm < hs - 1e-4:
             r.oracle_fail = 'entropy of the result %r is below the entropy of the source %r' % (hm, hs)
             return
+        alph = [sorted(set(o[i] for o in case['outs'])) for i in range(case['n'])]
+        if unc:
+            # a variable no constraint mentions: the result's own marginal on the constrained variables times the
+            # uniform distribution on the alphabets of the others has the same requested marginals as the result
+            # (every group lies inside `covered`), so by the statement it cannot have more entropy than the result
+            mc = self.marg(got, covered)
+            cells = list(itertools.product(*[alph[i] for i in unc]))
+            wit = {}
+            for k, v in mc.items():
+                for cell in cells:
+                    o = [None] * case['n']
+                    for i, s_ in zip(covered, k):
+                        o[i] = s_
+                    for i, s_ in zip(unc, cell):
+                        o[i] = s_
+                    wit[tuple(o)] = v / len(cells)
+            hw = self.H(wit)
+            r.detail['H_free_witness'] = hw
+            if any(tuple(o) not in wit for o in got):
+                r.oracle_fail = 'the result has an outcome outside the sample space of the source'
+                return
+            if hm < hw - 1e-4:
+                r.oracle_fail = ('entropy of the result %r is below %r, the entropy of another distribution with the same '
+                                 'requested marginals (the result\'s marginal on the constrained variables %s times uniform '
+                                 'on the unconstrained %s)' % (hm, hw, covered, unc))
+                r.detail['witness'] = {str(k): v for k, v in wit.items()}
+                return
+        if allsingle and groups and case['fam'] != 'singletons':
+            # singleton constraints on some of the variables: product of the listed marginals (exact) times uniform on
+            # the alphabets of the variables not listed
+            ems = [self.exact_marginal(case, i) if i in covered else {s_: Fraction(1, len(alph[i])) for s_ in alph[i]}
+                   for i in range(case['n'])]
+            prod = {}
+            for combo in itertools.product(*[sorted(mm.items()) for mm in ems]):
+                v = Fraction(1)
+                for _, q_ in combo:
+                    v *= q_
+                prod[tuple(k for k, _ in combo)] = float(v)
+            dev = max(abs(prod.get(k, 0.0) - got.get(k, 0.0)) for k in set(prod) | set(got))
+            r.detail['max_dev_from_closed_form'] = dev
+            if dev > 2e-3:
+                r.oracle_fail = ('singleton constraints %s: the result is not the product of the listed marginals times '
+                                 'uniform on the variables not listed (max deviation %r)' % (groups, dev))
+                return
         if case['fam'] == 'singletons':
             prod = {}
             ms = [self.marg(src, [i]) for i in range(case['n'])]
